@@ -1,7 +1,7 @@
 """C06 -- lost frames or a vanished peer end a transfer cleanly, never with corrupt data."""
 from fractions import Fraction
 
-from ..ref import ids
+from ..ref import ids, tp21, tp22
 from ..runner import Job
 from ..symx import sym_eq_seq, sym_and, sym_or, sym_not, T
 from .. import world as W
@@ -29,6 +29,32 @@ def classify(f, dll):
         c = int(d[0]) & 0xF
         return {0: 'rts', 1: 'cts', 2: 'eoms', 3: 'eoma', 4: 'bam', 15: 'abort'}.get(c, 'other'), (int(d[8]) if c == 15 else None)
     return 'other', None
+
+
+def late_probe(ex, w, sa, sb, dll, kind, npk, info, tag):
+    """behavioural test that both sides have given the session up: data packets (and, for connection mode, a CTS) that
+    arrive after the give-up time find no session - nothing is delivered, no data packet is sent"""
+    del sb.rx[:]
+    n0 = len(w.log)
+    dest = B if kind == 'p2p' else 255
+    for sq in range(1, npk + 1):
+        if dll == 'j1939-21':
+            w.inject(sb.node, tp21.can_id(7, 0xEB, dest, A), [sq] + [0x5A] * 7)
+        else:
+            w.inject(sb.node, tp21.can_id(7, tp22.PF_DT, dest, A), tp22.dt_frame(0, sq, [0x5A] * (60 * npk)), fd=True)
+    w.run(until=w.now + T('1/20'))
+    ex.claim(tag + '.late_packets_deliver_nothing', len(sb.rx) == 0, dict(info, deliveries=len(sb.rx)))
+    if kind == 'p2p':
+        pgn = 0xD000
+        if dll == 'j1939-21':
+            w.inject(sa.node, tp21.can_id(7, 0xEC, A, B), tp21.cts(1, 1, pgn))
+        else:
+            w.inject(sa.node, tp21.can_id(7, tp22.PF_CM, A, B), tp22.cm_frame(tp22.CTS, 0, 0xFFFFFF, 1, 1, 0, pgn), fd=True)
+        w.run(until=w.now + T('1/20'))
+        dts = [f for f in w.log[n0:] if f['src'] == 'A' and classify(f, dll)[0] == 'dt']
+        ex.claim(tag + '.late_cts_releases_no_packet', len(dts) == 0, dict(info, packets=len(dts)))
+    del sb.rx[:]
+    del sa.rx[:]
 
 
 def h_fault(ex, dll, L, kind, fault, windows=(1, 1), nmax=None):
@@ -103,6 +129,7 @@ def h_fault(ex, dll, L, kind, fault, windows=(1, 1), nmax=None):
     sa.node.silent_from = None
     sb.node.silent_from = None
     w.branching = False
+    late_probe(ex, w, sa, sb, dll, kind, npk, info, 'given_up')
     del sb.rx[:]
     del sa.rx[:]
     L2 = L + 1 if kind == 'p2p' else L
@@ -151,7 +178,7 @@ def h_giveup_time(ex, dll, L, kind, fault, windows=(1, 1)):
     info = {'k': [f['i'] for f in lost][:2], 'frames': len(w.log), 'L': L}
     w.drop_index = None
     w.branching = False
-    del sb.rx[:]
+    late_probe(ex, w, sa, sb, dll, kind, npk, info, 'giveup')
     p2 = [(7 * j + 1) % 256 for j in range(L + 1)]
     r2 = sa.ca.send_pgn(0, pf, ps, 6, list(p2))
     ex.claim('giveup.new_transfer_accepted_after_timeout', r2 is True, info)
